@@ -81,7 +81,7 @@ PROPS = {
         "level_note": "Trusted: Lean kernel, Mathlib analysis; harness IR extraction. Not proved: that the classical calibration gives (ε,δ)-DP. Queries whose aggregates share a sum are budgeted conservatively by the code and are only checked by the oracle, not compared with the model.",
     },
     "C06": {
-        "lean_modules": ["QrlewModel.Props.C06"],
+        "lean_modules": ["QrlewModel.Props.C06", "QrlewModel.Props.C06Expr"],
         "streams": [
             {"name": "fnimg", "n_quick": 20000, "n_thorough": 1000000},
             {"name": "fn", "n_quick": 120000, "n_thorough": 4000000, "compare": False, "min_per_proc": 2000},
@@ -141,18 +141,19 @@ PROPS = {
         "level_note": "Trusted: Lean kernel, Mathlib; SQLite; harness shims and IR extraction. Modelled, not verified: the SQL engine's evaluation of the rendered pipeline, NULL-unit rows, float rounding.",
     },
     "C08": {
-        "lean_modules": ["QrlewModel.Props.C08"],
+        "lean_modules": ["QrlewModel.Props.C08", "QrlewModel.Props.C08Split"],
         "streams": [
             {"name": "quote", "n_quick": 20000, "n_thorough": 1000000, "compare": True, "min_per_proc": 2000},
             {"name": "c08x", "n_quick": 3000, "n_thorough": 100000, "compare": False, "min_per_proc": 500},
             {"name": "sqlx", "n_quick": 20000, "n_thorough": 1500000, "compare": False, "min_per_proc": 500},
+            {"name": "split", "n_quick": 10000, "n_thorough": 1000000, "compare": True, "min_per_proc": 2000},
         ],
-        "rule": "quote: strings of length 0..6 over {a, b, space, ', \", \\, `, [, ], é, %, .} (plus mostly-letter strings with one or two special characters) x {literal, identifier, output column of a Map} x {PostgreSQL, SQLite, MySQL, MS SQL, BigQuery translators}: rendered text compared with the Lean model of the escaping, and read back with the library's parser; c08x: 42 query templates covering the constructs the property lists (literals and identifiers with special characters, GROUP BY alias / expression, ORDER BY positions / aliases, LIMIT/OFFSET, wildcard, USING/NATURAL/chains of joins, IN, DISTINCT, HAVING, CTE, derived tables, set operations with ORDER BY/LIMIT, casts, unary operators) x generated database instances; sqlx: generated queries (see C14) — original text and rendered relation both executed on SQLite: same multiset of rows, same order when the query has a total ORDER BY, same column names; non-trivial = compiled and executed",
+        "rule": "split: select items of depth 1..3 built from sum / count / min / max of row-level expressions (columns c0..c2, literals, abs, opposite, + - *) combined by abs, opposite, + - *, a quarter of them repeating one aggregate: the layers produced by the real expr::split::Split (names resolved to the content they stand for) compared with the Lean model, and recombined into one expression that must equal the item; quote: strings of length 0..6 over {a, b, space, ', \", \\, `, [, ], é, %, .} (plus mostly-letter strings with one or two special characters) x {literal, identifier, output column of a Map} x {PostgreSQL, SQLite, MySQL, MS SQL, BigQuery translators}: rendered text compared with the Lean model of the escaping, and read back with the library's parser; c08x: 42 query templates covering the constructs the property lists (literals and identifiers with special characters, GROUP BY alias / expression, ORDER BY positions / aliases, LIMIT/OFFSET, wildcard, USING/NATURAL/chains of joins, IN, DISTINCT, HAVING, CTE, derived tables, set operations with ORDER BY/LIMIT, casts, unary operators) x generated database instances; sqlx: generated queries (see C14) — original text and rendered relation both executed on SQLite: same multiset of rows, same order when the query has a total ORDER BY, same column names; non-trivial = compiled and executed",
         "trusted_base": COMMON_TRUST + ["SQLite 3.40 + harness shims as executor", "sqlparser's tokenizer as the reader of rendered literals (modelled by unesc)"],
         "assumptions": ["ORDER BY comparisons are made only for queries whose ORDER BY is total on the result (generated that way)", "SQLite semantics stand for 'executing the query' (integer division, text comparison and NULL ordering are SQLite's)"],
-        "technique": "Lean 4 proof of the text layer (for every string without a backslash-quote or doubled quote, reading back what the renderer writes returns the string, for any quote character; kernel-checked counterexamples for the two excluded shapes) + model/implementation correspondence on rendered literals and identifiers + differential execution (original SQL vs rendered relation on SQLite)",
-        "level_text": "Theorems (Props/C08.lean) for strings of any length: unesc (esc s) = some s under the decidable guard Clean, for literals and for identifiers in any doubling quote style; bracket quoting round-trips exactly the names without ']'. The model of the escaping routine is compared with the text the five translators actually write. Query-level equivalence (name resolution, split of mixed aggregate expressions, join-column coalescing) is decided by differential execution only: original and rendered SQL run side by side on SQLite over generated queries and data.",
-        "level_note": "Trusted: Lean kernel; SQLite and shims. Modelled, not verified: the AST visitor and the Map-Reduce-Map split are not modelled in Lean; for them the check is a differential test, not a theorem.",
+        "technique": "Lean 4 proof that the Map / Reduce / Map split of a select item keeps its value for every item, group of rows and naming injective on the item's columns (with kernel-checked counterexamples for colliding names and duplicate unnamed items) + Lean 4 proof of the text layer (for every string without a backslash-quote or doubled quote, reading back what the renderer writes returns the string, for any quote character; kernel-checked counterexamples for the two excluded shapes) + model/implementation correspondence on rendered literals and identifiers + differential execution (original SQL vs rendered relation on SQLite)",
+        "level_text": "Theorems (Props/C08.lean) for strings of any length: unesc (esc s) = some s under the decidable guard Clean, for literals and for identifiers in any doubling quote style; bracket quoting round-trips exactly the names without ']'. The model of the escaping routine is compared with the text the five translators actually write. split_preserves (Props/C08Split.lean) covers the split of mixed aggregate expressions, and the model of the split is compared with the layers the real Split produces. Name resolution, GROUP BY keys inside items and join-column coalescing are decided by differential execution only: original and rendered SQL run side by side on SQLite over generated queries and data.",
+        "level_note": "Trusted: Lean kernel; SQLite and shims. Modelled, not verified: the AST visitor (name resolution, joins, set operations) is not modelled in Lean; for it the check is a differential test, not a theorem. The split theorem assumes names injective on one item (the 4-character base-37 names can collide: C16.code_collision).",
     },
     "C09": {
         "lean_modules": ["QrlewModel.Props.C09"],
